@@ -89,6 +89,8 @@ var c04Plan = []planEntry{
 	{spaces.XEol, 5, 6},
 	{spaces.Inj, 4, 5},
 	{spaces.XEnt, 4, 5},
+	{spaces.XPhrase, 4, 5},
+	{spaces.XWs, 4, 5},
 }
 
 type healthyWriter struct{ n int }
